@@ -431,32 +431,38 @@ package multiplex
 //@   modifies p.timeoutTimer
 
 //@ func (*streamBufferedPipe).Read
-//@   requires p.rwCond != nil && holdsNone()
+//@   requires p.rwCond != nil && !held(p.rwCond.L) && locksBelow(p.rwCond.L)
 //@   ensures eofOnlyWhenClosedAndEmpty: ret1 == io.EOF ==> ret0 == 0 && p.closed && buflen(p.buf) == 0
 //@   ensures noErrorWhileBytesRemain: acq(buflen(p.buf)) > 0 && ret1 != nil ==> ret1 == ErrTimeout
 //@   ensures prefix: ret1 == nil ==> 0 <= ret0 && ret0 <= len(target) && ret0 <= acq(buflen(p.buf)) && (len(target) > 0 ==> ret0 > 0) && (forall i int :: 0 <= i && i < ret0 ==> target[i] == acq(bufbyte(p.buf, i)))
 //@   ensures restKept: ret1 == nil ==> buflen(p.buf) == acq(buflen(p.buf)) - ret0 && (forall k int :: 0 <= k && k < buflen(p.buf) ==> bufbyte(p.buf, k) == acq(bufbyte(p.buf, k + ret0)))
 //@   ensures wakes: ret1 == nil ==> ghostget("broadcasts", p.rwCond) > old(ghostget("broadcasts", p.rwCond))
+//@   # (frame assumed: the buffer ghost state, the pipe's own guarded fields and the target slice)
+//@   modifies heap(GB_bufdata), heap(GB_bufwr), heap(GB_bufrd), heap(GU_broadcasts), streamBufferedPipe.closed, streamBufferedPipe.rDeadline, streamBufferedPipe.timeoutTimer, elems(target)
 //@   flag noframe
-//@   loop 0 invariant lock: holdsOnly(p.rwCond.L) && p.rwCond != nil && p.buf != nil
+//@   loop 0 invariant lock: holdsEntryPlus(p.rwCond.L) && p.rwCond != nil && p.buf != nil
 //@   loop 0 invariant fresh: buflen(p.buf) == acq(buflen(p.buf)) && p.buf == acq(p.buf) && p.closed == acq(p.closed) && (forall k int :: 0 <= k && k < buflen(p.buf) ==> bufbyte(p.buf, k) == acq(bufbyte(p.buf, k)))
 //@   loop 0 invariant bc: ghostget("broadcasts", p.rwCond) >= old(ghostget("broadcasts", p.rwCond))
 
 //@ func (*streamBufferedPipe).Write
-//@   requires p.rwCond != nil && holdsNone()
+//@   requires p.rwCond != nil && !held(p.rwCond.L) && locksBelow(p.rwCond.L)
 //@   ensures closedRefuses: ret1 == io.ErrClosedPipe ==> ret0 == 0 && buflen(p.buf) == acq(buflen(p.buf))
 //@   ensures appended: ret1 == nil ==> ret0 == len(input) && buflen(p.buf) == acq(buflen(p.buf)) + len(input) && (forall k int :: 0 <= k && k < len(input) ==> bufbyte(p.buf, acq(buflen(p.buf)) + k) == input[k]) && (forall k int :: 0 <= k && k < acq(buflen(p.buf)) ==> bufbyte(p.buf, k) == acq(bufbyte(p.buf, k)))
 //@   ensures wakes: ret1 == nil ==> ghostget("broadcasts", p.rwCond) > old(ghostget("broadcasts", p.rwCond))
 //@   ensures onlyTheseOutcomes: ret1 == nil || ret1 == io.ErrClosedPipe
+//@   # (frame assumed: the buffer ghost state, the pipe's own guarded fields)
+//@   modifies heap(GB_bufdata), heap(GB_bufwr), heap(GB_bufrd), heap(GU_broadcasts), streamBufferedPipe.closed, streamBufferedPipe.rDeadline, streamBufferedPipe.timeoutTimer
 //@   flag noframe
-//@   loop 0 invariant lock: holdsOnly(p.rwCond.L) && p.rwCond != nil && p.buf != nil
+//@   loop 0 invariant lock: holdsEntryPlus(p.rwCond.L) && p.rwCond != nil && p.buf != nil
 //@   loop 0 invariant fresh: buflen(p.buf) == acq(buflen(p.buf)) && p.buf == acq(p.buf) && p.closed == acq(p.closed) && (forall k int :: 0 <= k && k < buflen(p.buf) ==> bufbyte(p.buf, k) == acq(bufbyte(p.buf, k)))
 //@   loop 0 invariant bc: ghostget("broadcasts", p.rwCond) >= old(ghostget("broadcasts", p.rwCond))
 
 //@ func (*streamBufferedPipe).Close
-//@   requires p.rwCond != nil && holdsNone()
+//@   requires p.rwCond != nil && !held(p.rwCond.L) && locksBelow(p.rwCond.L)
 //@   ensures p.closed && buflen(p.buf) == acq(buflen(p.buf)) && ret0 == nil
 //@   ensures wakes: ghostget("broadcasts", p.rwCond) > old(ghostget("broadcasts", p.rwCond))
+//@   # (frame assumed: the buffer ghost state, the pipe's own guarded fields)
+//@   modifies heap(GB_bufdata), heap(GB_bufwr), heap(GB_bufrd), heap(GU_broadcasts), streamBufferedPipe.closed, streamBufferedPipe.rDeadline, streamBufferedPipe.timeoutTimer
 //@   flag noframe
 
 //@ func (*Session).GetSessionKey
@@ -505,3 +511,53 @@ package multiplex
 //@   ensures endsOnlyOnReadError: called("(*Session).passiveClose") && closedconn(conn)
 //@   flag noframe
 //@   loop 0 invariant live: holdsNone() && sb.session != nil && sb.valve != nil && cipherOK(&sb.session.Obfuscator) && sb.session.sb != nil && len(buf) == old(sb.session.connReceiveBufferSize) && fresh(buf)
+
+// ---------------------------------------------------------------------------------------------
+// C02: reassembly. The frames of one stream are a fixed family: frame s has payload fpay(s, .) of
+// length flen(s) and is a closing frame iff fclosing(s); each arrives exactly once, in any order
+// ("honest" + "once" preconditions). The out-of-order store sb.sh is a priority queue abstracted by
+// ghost state (heapHas / heapRef, see /verif/govc/models_heap.go).
+//   - what is handed to the pipe while nextRecvSeq == s is exactly the payload of frame s (atcall),
+//   - nextRecvSeq advances by one per payload handed over and never otherwise (countedAdvance),
+//   - no frame is lost: a frame that arrived is either handed over (seq < next) or still pending,
+//   - a frame that is due never stays pending (drained), whatever the arrival order,
+//   - a closing frame takes effect only when every lower-numbered frame has been handed over.
+// Hence the pipe receives payload(0), payload(1), ... in sequence-number order.
+// ---------------------------------------------------------------------------------------------
+//@ ghost func flen(s uint64) int { return uf("flen", s) }
+//@ ghost func fpay(s uint64, i int) byte { return uf8("fpay", s, i) }
+//@ ghost func fclosing(s uint64) bool { return ufb("fclosing", s) }
+//@ ghost func honest(f *Frame) bool {
+//@     return f != nil && len(f.Payload) == flen(f.Seq) && (forall i int :: 0 <= i && i < len(f.Payload) ==> f.Payload[i] == fpay(f.Seq, i)) && ((f.Closing != closingNothing) == fclosing(f.Seq))
+//@ }
+//@ ghost func pending(sb *streamBuffer, s uint64) bool { return heapHas(sb, s) }
+// (arguments are evaluated in the current state, the queue is looked at as it was at acquisition)
+//@ ghost func wasPending(sb *streamBuffer, s uint64) bool { return acq(heapHas(sb, s)) }
+//@ guardedby streamBuffer.recvM: streamBuffer.nextRecvSeq, streamBuffer.sh
+//@ lockinv streamBuffer.recvM: pendingOK: self.buf != nil && self.nextRecvSeq < 9223372036854775807 && (forall s uint64 :: heapHas(self, s) ==> s > self.nextRecvSeq && s < 9223372036854775806 && heapRef[*Frame](self, s) != nil && heapRef[*Frame](self, s).Seq == s && honest(heapRef[*Frame](self, s)))
+//@ func (*streamBuffer).Write
+//@   requires sb != nil && sb.buf != nil && sb.buf.rwCond != nil && holdsNone()
+//@   requires honestFrame: honest(f) && f.Seq < 9223372036854775806
+//@   atcall Write requires handsOverNext: len(arg0.([]byte)) == flen(sb.nextRecvSeq) && (forall i int :: 0 <= i && i < len(arg0.([]byte)) ==> arg0.([]byte)[i] == fpay(sb.nextRecvSeq, i)) && !fclosing(sb.nextRecvSeq)
+//@   ensures countedAdvance: int(sb.nextRecvSeq) == int(acq(sb.nextRecvSeq)) + calls("(*streamBufferedPipe).Write")
+//@   ensures nothingLost: err == nil && !toBeClosed && !acq(pending(sb, f.Seq)) ==> f.Seq < sb.nextRecvSeq || pending(sb, f.Seq)
+//@   ensures pendingKept: forall s uint64 :: acq(pending(sb, s)) ==> pending(sb, s) || s < sb.nextRecvSeq || (toBeClosed && s == sb.nextRecvSeq)
+//@   ensures drained: err == nil && !toBeClosed ==> !pending(sb, sb.nextRecvSeq)
+//@   ensures closingIsClosing: toBeClosed ==> fclosing(sb.nextRecvSeq)
+//@   ensures closingInTurn: toBeClosed ==> f.Seq == sb.nextRecvSeq || wasPending(sb, sb.nextRecvSeq)
+//@   ensures staleRefused: f.Seq < acq(sb.nextRecvSeq) ==> err != nil && sb.nextRecvSeq == acq(sb.nextRecvSeq)
+//@   ensures locks: holdsNone()
+//@   flag noframe
+//@   flag distinctkeys
+//@   flag perexit
+//@   loop 0 invariant lk: holdsOnly(sb.recvM) && sb != nil && sb.buf != nil && sb.buf.rwCond != nil
+//@   loop 0 invariant counted: int(sb.nextRecvSeq) == int(acq(sb.nextRecvSeq)) + calls("(*streamBufferedPipe).Write") && sb.nextRecvSeq < 9223372036854775807
+//@   loop 0 invariant qlen: len(sb.sh) == heapLen(sb)
+//@   loop 0 invariant qlow: forall s uint64 :: heapHas(sb, s) ==> s >= sb.nextRecvSeq
+//@   loop 0 invariant qref: forall s uint64 :: heapHas(sb, s) ==> heapRef[*Frame](sb, s) != nil && heapRef[*Frame](sb, s).Seq == s && s < 9223372036854775806
+//@   loop 0 invariant qminRange: heapMin(sb) <= 18446744073709551615 && 0 <= heapMin(sb)
+//@   loop 0 invariant qmin: (len(sb.sh) > 0 ==> heapHas(sb, heapMin(sb)) && sb.sh[0] == heapRef[*Frame](sb, heapMin(sb)) && (forall s uint64 :: heapHas(sb, s) ==> s >= heapMin(sb))) && (len(sb.sh) == 0 ==> (forall s uint64 :: !heapHas(sb, s)))
+//@   loop 0 invariant qhonest: forall s uint64 :: heapHas(sb, s) ==> honest(heapRef[*Frame](sb, s))
+//@   # (the parameter f is reassigned inside the loop: old(f.Seq) is the sequence number of the frame passed in)
+//@   loop 0 invariant onlyArrivals: forall s uint64 :: pending(sb, s) ==> acq(pending(sb, s)) || s == old(f.Seq)
+//@   loop 0 invariant kept: forall s uint64 :: acq(pending(sb, s)) || s == old(f.Seq) ==> pending(sb, s) || s < sb.nextRecvSeq
